@@ -93,6 +93,18 @@ CLAIMS = {
               "identity of secp256k1 parse/serialize is trusted; equality of values is argued per field, not executed."),
         technique="sibling codec agreement on MIR event sequences + exhaustive decision tables over tag bytes + dominance of canonicity guards + return-value dataflow",
         design_ref="§4 C01"),
+    "C07": dict(
+        category="other",
+        text=("Decides the structural clauses of C07: the key-type tables extracted from get_pairs (writer) and from insert_pair plus the "
+              "hand-written Decodable loops (reader) of Global, Input and Output are mutually inverse — same field per (key type, "
+              "proprietary subtype) for all 70 keys, equal Serialize/Deserialize key and value types, no shared key, every struct field "
+              "emitted and parsed; every unkeyed arm is guarded by empty key data and an unset field with InvalidKey/DuplicateKey edges, "
+              "keyed arms reject occupied entries, hash preimages are checked before insertion; framing (magic, separator, order, 0x00 "
+              "terminators, NoMorePairs, sanity_check dominating Ok, 10 000 caps); mandatory-field errors; who-may-write rule for the "
+              "counts with paired vector operations; tap-tree leaves kept/written/read in DFS order (re-encoding fixpoint); ELIP-100/102 "
+              "getter/setter key agreement; ProprietaryKey and Schnorr-signature codecs. Value codecs that delegate to consensus encoding are C01."),
+        technique="table bijection between sibling writer/reader extracted from MIR + guard dominance + who-may-write rule",
+        design_ref="§4 C07"),
 }
 
 NOT_YET = "rule set designed in DESIGN.md but not built yet in this round; no claim is made"
